@@ -175,7 +175,7 @@ class World(object):
             tr.exc_kind = "other"
             rep = None
         self.ntrans += 1
-        self.last_life = kind in ("reopen", "clear", "obs", "resolve")
+        self.last_life = kind in ("reopen", "clear", "obs", "resolve", "reopen_forget")
         if self.last_life:
             self.nlife += 1
         tr.ret = rep
@@ -194,16 +194,32 @@ class World(object):
                 self.broken = "unexpected failure %s on %r" % (tr.exc, kind)
         return tr
 
+    # str arguments --------------------------------------------------------
+    def _op_as_str(self, op, tr):
+        """The inner request with every LRU handed over as str instead of bytes (the API encodes
+        them); the model keeps working on bytes."""
+        _, inner = op
+        self._str = True
+        try:
+            return getattr(self, "_op_" + inner[0])(inner, tr)
+        finally:
+            self._str = False
+
+    def _x(self, lru):
+        return lru.decode("utf-8") if getattr(self, "_str", False) else lru
+
     # page-like ------------------------------------------------------------
     def _op_page(self, op, tr):
         _, lru, crawled = op
         tr.pred_new_pages, tr.pred_created = self.m.insert_pages([(lru, crawled)])
-        return lambda: self.t.add_page(lru, crawled=crawled)
+        arg = self._x(lru)
+        return lambda: self.t.add_page(arg, crawled=crawled)
 
     def _op_pages(self, op, tr):
         _, lrus, crawled = op
         tr.pred_new_pages, tr.pred_created = self.m.insert_pages([(l, crawled) for l in lrus])
-        return lambda: self.t.add_pages(list(lrus), crawled=crawled)
+        args = [self._x(l) for l in lrus]
+        return lambda: self.t.add_pages(args, crawled=crawled)
 
     def _op_links(self, op, tr):
         _, pairs = op
@@ -215,7 +231,8 @@ class World(object):
         tr.pred_new_pages, tr.pred_created = self.m.insert_pages([(x, False) for x in order])
         for s, t in pairs:
             self.m.links[(s, t)] += 1
-        return lambda: self.t.add_links([tuple(p) for p in pairs])
+        args = [(self._x(a), self._x(b)) for a, b in pairs]
+        return lambda: self.t.add_links(args)
 
     def _op_crawl(self, op, tr):
         _, items = op
@@ -228,7 +245,7 @@ class World(object):
         for s, tgts in items:
             for t in tgts:
                 self.m.links[(s, t)] += 1
-        data = {s: list(tgts) for s, tgts in items}
+        data = {self._x(s): [self._x(t) for t in tgts] for s, tgts in items}
         assert len(data) == len(items), "crawl op with duplicate source"
         return lambda: self.t.index_batch_crawl(data, 1)
 
@@ -284,7 +301,8 @@ class World(object):
             m.named.add(p)
         tr.expect_refusal = any(p in m.prefix for p in prefs)
         tr.pred_created = [] if tr.expect_refusal else [sorted(prefs)]
-        return lambda: self.t.create_webentity(list(prefs))
+        args = [self._x(p) for p in prefs]
+        return lambda: self.t.create_webentity(args)
 
     def _op_delete(self, op, tr):
         _, idx, mode = op
@@ -458,6 +476,20 @@ class World(object):
         def call():
             self.t.close()
             self.t = self._open(self.m.default, self.m.rules)
+            return True
+
+        return call
+
+    def _op_reopen_forget(self, op, tr):
+        """Close, then reopen WITHOUT re-supplying the anchored rules (an API misuse that is
+        nevertheless reachable): the trie keeps rule flags the object has no pattern for. The
+        reference ladder no longer applies afterwards; only C14 (bytes around queries) uses it."""
+        if self.folder is None:
+            raise Disabled()
+
+        def call():
+            self.t.close()
+            self.t = self._open(self.m.default, {})
             return True
 
         return call
